@@ -1,12 +1,16 @@
 // C09 — data strings and hex dumps decode back.
 //
-// Parts (all in this binary, selected with --arg only=<part>; default = rt,total,iov,overload):
+// Parts (all in this binary, selected with --arg only=<part>; default = streams,rt,total,iov,overload,hist):
 //   rt       format_data_string -> parse_data_string round trip incl. masks (oracle inline)
 //   total    parser totality on arbitrary / mutated text (no crash, terminates, mask classifies every byte)
 //   iov      hex dump independent of the iovec partition (exhaustive 1-4-way cuts for len<=40, random above)
 //   overload every print_data/format_data overload prints what the core prints
+//   hist     PRIOR HISTORY: on a fresh thread, right after one earlier unrelated use of phosg's shared helpers
+//            (vf_history.hh catalogue, spread over the shards), a mini-workload of 50 data-string round trips
+//            (lengths 0..300 short to long, quoted and hex forms, masks); same inline oracle as rt
 //   io       executes a grammar case file (--arg cases=F --arg res=F) and writes a dump log (--arg log=F)
-//            for the independent Python oracles in vf/oracles/c09.py
+//            for the independent Python oracles in vf/oracles/c09.py; with --arg histlog=F also the prior-history
+//            log: after each prior, on a fresh thread, the first grammar texts again and 46 dumps of 0..80 bytes
 #include <errno.h>
 #include <fcntl.h>
 #include <poll.h>
@@ -23,11 +27,36 @@
 
 #include "Strings.hh"
 #include "common.hh"
+#include "vf_history.hh"
 
 using namespace std;
 using vf::fmt;
 
 static vf::Ctx* C;
+
+// While a prior-history mini-workload runs (hist part / io hist log) these name the prior; violations raised through
+// V() then carry the prior's family in the key (<first key segment>:prior-history:<family>:<rest>) and its name in the case.
+static string g_prior_fam, g_prior_name;
+static void V(const string& key, const string& what, const string& kase) {
+  if (g_prior_fam.empty()) {
+    C->violation(key, what, kase);
+    return;
+  }
+  size_t c = key.find(':');
+  string k = key.substr(0, c) + ":prior-history:" + g_prior_fam + (c == string::npos ? string() : key.substr(c));
+  C->violation(k, what, "on a fresh thread after prior [" + g_prior_name + "]: " + kase);
+}
+static string prior_crumb() { return g_prior_fam.empty() ? string() : "after prior [" + g_prior_name + "] "; }
+struct PriorScope {
+  explicit PriorScope(const vf::Prior& p) {
+    g_prior_name = p.name;
+    g_prior_fam = p.name.find(" then ") != string::npos ? string("two-step") : p.family;
+  }
+  ~PriorScope() {
+    g_prior_fam.clear();
+    g_prior_name.clear();
+  }
+};
 
 static const uint64_t TOP_LINE = 0xFFFFFFFFFFFFFFF0ULL;
 
@@ -107,7 +136,7 @@ static uint64_t rt_cases = 0;
 static void check_rt(const string& data, const string* mask, uint64_t flags, const char* gen, int mkind, bool ptr_overload) {
   C->evaluations++;
   rt_cases++;
-  C->crumb_s(fmt("rt gen=%s flags=%" PRIu64 " mask=%s len=%zu data=", gen, flags, MASK_KINDS[mkind], data.size()) + vf::hex(data).substr(0, 1600));
+  C->crumb_s(prior_crumb() + fmt("rt gen=%s flags=%" PRIu64 " mask=%s len=%zu data=", gen, flags, MASK_KINDS[mkind], data.size()) + vf::hex(data).substr(0, 1600));
   bool has_bs = data.find('\\') != string::npos;
   const char* icls = has_bs ? "has-backslash" : "no-backslash";
   string text;
@@ -118,7 +147,7 @@ static void check_rt(const string& data, const string* mask, uint64_t flags, con
     vf::poison_errno();
     text = phosg::format_data_string(data, mask, flags);
   } catch (const std::exception& e) {
-    C->violation("format_data_string:throws", string("format_data_string threw: ") + e.what(), witness());
+    V("format_data_string:throws", string("format_data_string threw: ") + e.what(), witness());
     return;
   }
   if (ptr_overload) {
@@ -132,7 +161,7 @@ static void check_rt(const string& data, const string* mask, uint64_t flags, con
     string t2 = phosg::format_data_string(n ? pd : pd + 1, n, pm ? (n ? pm : pm + 1) : nullptr, flags);
     free(pd);
     free(pm);
-    if (t2 != text) C->violation("format_data_string:overloads-differ", "pointer overload renders differently from the string overload", witness() + " vs [" + esc_text(t2) + "]");
+    if (t2 != text) V("format_data_string:overloads-differ", "pointer overload renders differently from the string overload", witness() + " vs [" + esc_text(t2) + "]");
   }
   bool quoted = !text.empty() && text[0] == '"';
   const char* form = quoted ? "quoted" : "hex";
@@ -145,27 +174,27 @@ static void check_rt(const string& data, const string* mask, uint64_t flags, con
     vf::poison_errno();
     back_nomask = phosg::parse_data_string(*ht);
   } catch (const std::exception& e) {
-    C->violation(fmt("roundtrip:%s:parse-throws", form), string("parse_data_string threw on formatter output: ") + e.what(), witness());
+    V(fmt("roundtrip:%s:parse-throws", form), string("parse_data_string threw on formatter output: ") + e.what(), witness());
     return;
   }
   if (back != data) {
-    C->violation(fmt("roundtrip:%s:bytes-differ:%s", form, icls), "parse_data_string(format_data_string(d)) != d",
+    V(fmt("roundtrip:%s:bytes-differ:%s", form, icls), "parse_data_string(format_data_string(d)) != d",
         witness() + " -> parse = " + vf::hex(back));
   } else {
     if (m2.size() != data.size()) {
-      C->violation(fmt("roundtrip:%s:mask-size", form), "returned mask does not classify every byte", witness() + " -> mask = " + vf::hex(m2));
+      V(fmt("roundtrip:%s:mask-size", form), "returned mask does not classify every byte", witness() + " -> mask = " + vf::hex(m2));
     } else {
       for (size_t i = 0; i < data.size(); i++) {
         bool want = mask ? ((*mask)[i] != 0) : true;
         if ((m2[i] != 0) != want) {
-          C->violation(fmt("roundtrip:%s:mask-differs:%s", form, icls), fmt("byte %zu: masked/unmasked classification changed", i),
+          V(fmt("roundtrip:%s:mask-differs:%s", form, icls), fmt("byte %zu: masked/unmasked classification changed", i),
               witness() + " -> mask = " + vf::hex(m2));
           break;
         }
       }
     }
   }
-  if (back_nomask != back) C->violation(fmt("roundtrip:%s:nomask-parse-differs", form), "parsing with mask==nullptr gives different bytes", witness());
+  if (back_nomask != back) V(fmt("roundtrip:%s:nomask-parse-differs", form), "parsing with mask==nullptr gives different bytes", witness());
   C->cls(fmt("rt:%s:%s:%s", gen, form, MASK_KINDS[mkind]));
   C->cls(fmt("rt:len%s:%s", lenbucket(data.size()).c_str(), form));
   if (rt_cases % 40000 == 7) C->sample("roundtrip " + witness().substr(0, 300));
@@ -1274,6 +1303,9 @@ static void putstr(FILE* f, const string& s) {
   if (!s.empty()) fwrite(s.data(), 1, s.size(), f);
 }
 
+static const size_t HIST_TEXTS = 12;  // the first texts of the case file are parsed again after every prior (io hist log)
+static vector<string> g_hist_texts;
+
 static void io_grammar(const string& cases_path, const string& res_path) {
   FILE* in = fopen(cases_path.c_str(), "rb");
   FILE* out = fopen(res_path.c_str(), "wb");
@@ -1289,6 +1321,7 @@ static void io_grammar(const string& cases_path, const string& res_path) {
       fprintf(stderr, "[harness-error] truncated case file\n");
       exit(3);
     }
+    if (g_hist_texts.size() < HIST_TEXTS) g_hist_texts.push_back(text);
     C->evaluations++;
     C->crumb_s(fmt("grammar case %" PRIu64 " text=", idx) + vf::hex(text).substr(0, 1800));
     unique_ptr<string> ht(new string(text));
@@ -1311,15 +1344,29 @@ static void io_grammar(const string& cases_path, const string& res_path) {
   C->count("grammar_texts_executed", idx);
 }
 
-static void log_case(FILE* f, const DumpCase& k) {
+// via: nullptr = format_data(iovec core); otherwise print_data(via, ptr, size, ...) read back from that (non-tty) stream
+static void log_case(FILE* f, const DumpCase& k, FILE* via = nullptr) {
   string out, err;
   C->evaluations++;
-  C->crumb_s(fmt("dump %s addr=0x%" PRIX64 " flags=0x%" PRIX64 " len=%zu prev=%d data=", k.label().c_str(), k.addr, k.flags, k.data.size(), (int)k.has_prev) + vf::hex(k.data).substr(0, 1300));
-  bool ok = render_single(k, &out, &err);
+  C->crumb_s(prior_crumb() + fmt("dump %s%s addr=0x%" PRIX64 " flags=0x%" PRIX64 " len=%zu prev=%d data=", via ? "print_data " : "", k.label().c_str(), k.addr, k.flags, k.data.size(), (int)k.has_prev) + vf::hex(k.data).substr(0, 1300));
+  bool ok;
+  if (via) {
+    ok = true;
+    vf::poison_errno();
+    try {
+      phosg::print_data(via, k.data.data(), k.data.size(), k.addr, k.has_prev ? k.prev.data() : nullptr, k.flags);
+      out = read_stream(via);
+    } catch (const std::exception& e) {
+      ok = false;
+      err = e.what();
+    }
+  } else {
+    ok = render_single(k, &out, &err);
+  }
   fputc('D', f);
   put64(f, k.addr);
   put64(f, k.flags);
-  putstr(f, k.label());
+  putstr(f, k.label() + (via ? " via=print_data(FILE*,ptr,size)" : ""));
   putstr(f, k.data);
   fputc(k.has_prev ? 1 : 0, f);
   if (k.has_prev) putstr(f, k.prev);
@@ -1379,6 +1426,140 @@ static void io_dumps(const string& log_path, vf::Rng& r) {
   fclose(f);
 }
 
+// ---------------------------------------------------------------------------------------------
+// PRIOR HISTORY (round 6).  format_data_string ("%02X" per byte in the hex form) and format_data (address field of
+// 2/4/8/16 digits with or without " |", " %02X" per byte, " %12.5g" per float/double field) build their output from
+// string_printf pieces; every other part of this harness calls only C09 functions, so the hidden state of such a shared
+// helper (a per-thread scratch buffer that only grows, is trimmed every N calls, is given away after a long output) stays
+// where the C09 workload itself puts it.  Here each mini-workload runs on a FRESH thread right after exactly one earlier
+// unrelated use of the helpers (vf_history.hh: ~280 priors, spread over the shards with stride nshards / phase shard,
+// plus a seeded sample of two-step histories).  Nothing new is demanded: every call is judged by the oracle it has in the
+// main parts (inline round trip here; Python reference parser and dump decoder for the io hist log), as if it had been
+// made on a thread without history.  Keys: <first segment>:prior-history:<prior family>:<rest of the usual key>.
+
+static const size_t HIST_RT_LENS[] = {0, 1, 2, 3, 4, 5, 7, 8, 15, 16, 17, 31, 32, 33, 63, 64, 65, 100, 127, 128, 129, 255, 256, 257, 300};
+
+static string gen_unprintable(vf::Rng& r, size_t n) {  // every byte needs a hex cell / forces the hex form
+  string s(n, '\0');
+  for (auto& ch : s) {
+    uint64_t k = r.below(4);
+    ch = (char)(k == 0 ? r.below(9) : k == 1 ? 0x0E + r.below(0x12) : 0x7F + r.below(0x81));
+  }
+  return s;
+}
+
+static void hist_rt_mini(vf::Rng& r) {
+  size_t i = 0;
+  for (size_t n : HIST_RT_LENS) {  // short to long
+    // A: printable: quoted form (nothing to escape / escapes at many places); every 4th forced into the hex form
+    string a = (i % 4 < 2) ? gen_printable(r, n) : gen_meta_heavy(r, n);
+    int mka = (int)(i % 6);
+    string ma = make_mask(r, n, mka);
+    check_rt(a, mka ? &ma : nullptr, (i % 4 == 3) ? 1 : 0, "prior-history", mka, i % 3 == 0);
+    // B: not printable: one "%02X" piece per byte, mask toggles in between
+    string b = (i % 3 == 2) ? r.bytes(n) : gen_unprintable(r, n);
+    int mkb = (int)((i + 3) % 6);
+    string mb = make_mask(r, n, mkb);
+    check_rt(b, mkb ? &mb : nullptr, (i % 5 == 4) ? 1 : 0, "prior-history", mkb, i % 3 == 1);
+    i++;
+  }
+}
+
+static void hist_suite() {
+  vf::Rng r = C->rng(60);
+  uint64_t before = rt_cases;
+  size_t threads = vf::for_each_prior(
+      *C,
+      [&](const vf::Prior& p) {
+        PriorScope ps(p);
+        hist_rt_mini(r);
+        C->cls("prior:" + g_prior_fam + ":rt");
+      },
+      C->nshards, C->shard, C->qt<size_t>(2, 12));
+  C->count("prior_history_fresh_threads:rt", threads);
+  C->count("prior_history_judged_round_trips", rt_cases - before);
+  C->count("prior_history_catalogue_size", C->shard == 0 ? vf::priors().size() : 0);
+}
+
+// io hist log (--arg histlog=F), judged by vf/oracles/c09.py:
+//   'P' str(name) str(family)                                  a fresh thread has just run this prior
+//   'G' u32 text-index u8 status str(data-or-what) str(mask)   parse_data_string of the index-th text of the case file
+//   'D' ... (as in the dump log)                               format_data / print_data of one buffer
+static const size_t HIST_DUMP_LENS[] = {0, 1, 2, 3, 5, 8, 11, 15, 16, 17, 24, 31, 32, 33, 40, 47, 48, 49, 63, 64, 65, 72, 80};
+
+static void io_hist(const string& hist_path) {
+  FILE* f = fopen(hist_path.c_str(), "wb");
+  FILE* tf = tmpfile();
+  if (!f || !tf) {
+    fprintf(stderr, "[harness-error] cannot open %s / tmpfile\n", hist_path.c_str());
+    exit(3);
+  }
+  static const uint64_t FS[] = {0, F_ASCII, F_ASCII | F_FLOAT, F_DOUBLE | F_OFF64, F_COLLAPSE | F_OFF8 | F_ASCII, F_SKIPSEP | F_OFF16, F_SKIPSEP | F_OFF64 | F_ASCII,
+      F_FLOAT | F_DOUBLE | F_BIG, F_OFF32 | F_SKIPSEP, F_ASCII | F_FLOAT | F_REVERSE, F_OFF32 | F_DOUBLE | F_LITTLE, F_SKIPSEP | F_OFF8 | F_COLLAPSE};
+  const size_t NFS = sizeof(FS) / sizeof(FS[0]);
+  static const int AK[] = {0, 1, 4, 9, 10, 19};
+  static const int DK[] = {0, 1, 5, 6, 4, 7};
+  vf::Rng r = C->rng(61);
+  uint64_t dumps = 0, texts = 0;
+  size_t pass = C->shard;
+  size_t threads = vf::for_each_prior(
+      *C,
+      [&](const vf::Prior& p) {
+        PriorScope ps(p);
+        fputc('P', f);
+        putstr(f, g_prior_name);
+        putstr(f, g_prior_fam);
+        for (size_t ti = 0; ti < g_hist_texts.size(); ti++) {
+          C->evaluations++;
+          C->crumb_s(prior_crumb() + fmt("grammar text %zu text=", ti) + vf::hex(g_hist_texts[ti]).substr(0, 1700));
+          unique_ptr<string> ht(new string(g_hist_texts[ti]));
+          string mask, data;
+          uint8_t status = 0;
+          try {
+            vf::poison_errno();
+            data = phosg::parse_data_string(*ht, &mask);
+          } catch (const std::exception& e) {
+            status = 1;
+            data = e.what();
+          }
+          fputc('G', f);
+          put32(f, (uint32_t)ti);
+          fputc(status, f);
+          putstr(f, data);
+          putstr(f, mask);
+          texts++;
+        }
+        // which flag set / address width makes the thread's first formatted pieces (2..18 characters) rotates with the prior
+        size_t i = pass++;
+        for (size_t n : HIST_DUMP_LENS) {  // short to long: lines of 1, 2, ... 6 rows, partial first / last rows
+          for (int colour = 0; colour < 2; colour++) {
+            DumpCase k;
+            k.akind = AK[(i + colour) % 6];
+            k.dkind = (n >= 48 && i % 2) ? 4 : DK[(i + 2 * colour) % 6];  // zero runs where collapsing can bite
+            k.cmode = colour ? 3 : 0;
+            k.addr = make_addr(r, k.akind, n);
+            k.data = make_data(r, k.dkind, n);
+            k.flags = FS[(colour ? i * 5 + 1 : i) % NFS] | cmode_flags(k.cmode);
+            k.has_prev = cmode_prev(k.cmode);
+            if (k.has_prev) {
+              k.pkind = 1 + (int)(i % 3);
+              k.prev = make_prev(r, k.pkind, k.data, k.addr);
+            }
+            log_case(f, k, (i % 3 == 2) ? tf : nullptr);
+            dumps++;
+          }
+          i++;
+        }
+        C->cls("prior:" + g_prior_fam + ":io");
+      },
+      C->nshards, C->shard, C->qt<size_t>(2, 12));
+  fclose(f);
+  fclose(tf);
+  C->count("prior_history_fresh_threads:io", threads);
+  C->count("prior_history_dumps_logged", dumps);
+  C->count("prior_history_grammar_texts_executed", texts);
+}
+
 int main(int argc, char** argv) {
   vf::Ctx& c = vf::init(argc, argv);
   C = &c;
@@ -1391,9 +1572,11 @@ int main(int argc, char** argv) {
   if (want("total")) total_suite(r);
   if (want("iov")) iov_suite(r);
   if (want("overload")) overload_suite(r);
+  if (want("hist")) hist_suite();
   if (want("io")) {
     if (!c.arg("cases").empty()) io_grammar(c.arg("cases"), c.arg("res"));
     if (!c.arg("log").empty()) io_dumps(c.arg("log"), r);
+    if (!c.arg("histlog").empty()) io_hist(c.arg("histlog"));
   }
   if (only.empty()) {
     c.sample("round trip of every 1- and 2-byte string over all 256 values, flags {0,HEX_ONLY}, masks {none, 00 FF, FF 00, 00 00}");
